@@ -119,6 +119,11 @@ def _main_child(args):
 
     # ---- extra deterministic parts of the check (fidelity of stubs, directed scenarios, sweeps) ----
     pre = engine.pre_checks(tier, base_seed, args.workers)
+    if pre.get('abort'):
+        # the engine cannot give a verdict on this tree at all (e.g. a seam it does not own): say so, judge nothing
+        print('HARNESS-ERROR: %s' % pre['abort'], flush=True)
+        print('summary: runs=0 - no verdict (this is not a statement about the property)', flush=True)
+        return 2
     harness_errors += pre.get('harness_errors', [])
     extra_results = pre.get('results', [])   # list of {'seed':..,'plan':..,'result':..}
 
